@@ -6,6 +6,7 @@ from amaranth.hdl import Module, ClockDomain
 from amaranth.lib.fifo import SyncFIFO, SyncFIFOBuffered
 from amaranth.sim import Simulator
 
+from vlib.reuse import elaborated_before
 from vlib.runner import Part, Mismatch, HarnessError
 from vlib.simdrv import snapshot, restore
 from vlib.gen_expr import INT, BOOL, PICK
@@ -80,13 +81,15 @@ class Monitor:
         return tuple(q), age, popped, pushed
 
 
-def make(kind, depth, width):
+def make(kind, depth, width, case=None):
     with warnings.catch_warnings():
         warnings.simplefilter("ignore")
         m = Module()
         cd = ClockDomain("sync")
         m.domains += cd
         m.submodules.fifo = fifo = CLASSES[kind](width=width, depth=depth)
+        if case is not None:
+            elaborated_before(case, m, every=3)
         sim = Simulator(m)
     return sim, cd, fifo
 
@@ -204,7 +207,7 @@ def walk_cases(draw, nsteps):
 
 def walk_body(ctx, case):
     kind, depth, width = case["kind"], case["depth"], case["width"]
-    sim, cd, fifo = make(kind, depth, width)
+    sim, cd, fifo = make(kind, depth, width, case)
     mon = Monitor(kind, depth, width)
     fail = []
     st_ = dict(full=False, empty=False, wrap=False, moved=0, nwr=0)
